@@ -43,6 +43,10 @@ func harnessC13() {
 		sc.Hash = nil
 	}
 	ok, err := sc.Check("/bin/plugin")
+	vRecord("hashNil", sc.Hash == nil)
+	vRecord("openFails", openFails)
+	vRecord("out.ok", ok)
+	vRecord("out.err", err != nil)
 
 	// reference: byte-for-byte, length-sensitive equality
 	equal := len(c) == len(d)
